@@ -35,19 +35,36 @@ def FS.set (fs : FS) (p c : Bytes) : FS :=
   | [] => [(p, c)]
   | (q, d) :: r => if q = p then (p, c) :: r else (q, d) :: FS.set r p c
 
-/-- everything a run produces besides the file system -/
+/-- What a run *asks for*, independent of the prior state of OUT_DIR: the sequence of
+`write_if_changed(path, content)` requests, the lines printed, the inputs listed / opened.
+(Nothing in ructe reads OUT_DIR except `write_if_changed` itself.) -/
+structure Log where
+  writes : List (Bytes × Bytes) := []   -- write_if_changed requests, in order
+  stdout : List Bytes := []             -- lines printed (without the newline)
+  reads : List Bytes := []              -- input paths listed / opened
+
+def Log.print (o : Log) (line : Bytes) : Log := { o with stdout := o.stdout ++ [line] }
+def Log.read (o : Log) (p : Bytes) : Log := { o with reads := o.reads ++ [p] }
+def Log.write (o : Log) (p c : Bytes) : Log := { o with writes := o.writes ++ [(p, c)] }
+
+/-- the request `write_if_changed(p, c)` (kept under its old name in the functions below) -/
+def writeIfChanged (o : Log) (p c : Bytes) : Log := o.write p c
+
+/-- the file system after a run, with the log of **physical** writes -/
 structure Out where
   fs : FS
   writes : List Bytes := []      -- physical writes, in order
-  stdout : List Bytes := []      -- lines printed (without the newline)
-  reads : List Bytes := []       -- input paths listed / opened
+  stdout : List Bytes := []
+  reads : List Bytes := []
 
-def Out.print (o : Out) (line : Bytes) : Out := { o with stdout := o.stdout ++ [line] }
-def Out.read (o : Out) (p : Bytes) : Out := { o with reads := o.reads ++ [p] }
+/-- `write_if_changed` itself: the file is (re)written unless it already holds exactly `c` -/
+def applyWrite (o : FS × List Bytes) (pc : Bytes × Bytes) : FS × List Bytes :=
+  if o.1.get pc.1 = some pc.2 then o else (o.1.set pc.1 pc.2, o.2 ++ [pc.1])
 
-/-- `write_if_changed`: the file is (re)written unless it already holds exactly `c` -/
-def writeIfChanged (o : Out) (p c : Bytes) : Out :=
-  if o.fs.get p = some c then o else { o with fs := o.fs.set p c, writes := o.writes ++ [p] }
+/-- carry out the requests of a log on a given prior OUT_DIR state -/
+def runLog (fs : FS) (l : Log) : Out :=
+  let r := l.writes.foldl applyWrite (fs, [])
+  { fs := r.1, writes := r.2, stdout := l.stdout, reads := l.reads }
 
 def joinPath (base name : Bytes) : Bytes := base ++ [47] ++ name
 
@@ -65,7 +82,7 @@ def templateDecl (name : Bytes) : Bytes :=
 variable (uniEsc uniAlnum : Nat → Bool)
 
 /-- `handle_template`: (declared?, new state) -/
-def handleTemplate (o : Out) (name path outdir content : Bytes) : Bool × Out :=
+def handleTemplate (o : Log) (name path outdir content : Bytes) : Bool × Log :=
   let o := o.read path
   match template (8 * content.length + 16) content with
   | .ok _ t =>
@@ -79,7 +96,7 @@ def handleTemplate (o : Out) (name path outdir content : Bytes) : Bool × Out :=
   | _ => (false, o.print (str "PANIC"))
 
 /-- template-file handling for one directory entry name: all matching suffixes, in table order -/
-def handleFile (o : Out) (f : Bytes) (fname path outdir content : Bytes) : List Bytes → Bytes × Out
+def handleFile (o : Log) (f : Bytes) (fname path outdir content : Bytes) : List Bytes → Bytes × Log
   | [] => (f, o)
   | suf :: rest =>
     if endsWith fname suf then
@@ -93,7 +110,7 @@ def handleFile (o : Out) (f : Bytes) (fname path outdir content : Bytes) : List 
 
 mutual
 /-- `handle_entries` over the entries of one directory, in `read_dir` order -/
-def handleEntries (o : Out) (f : Bytes) (indir outdir : Bytes) : List Entry → Bytes × Out
+def handleEntries (o : Log) (f : Bytes) (indir outdir : Bytes) : List Entry → Bytes × Log
   | [] => (f, o)
   | .dir name sub :: rest =>
     if validUtf8 name then
@@ -108,7 +125,7 @@ def handleEntries (o : Out) (f : Bytes) (indir outdir : Bytes) : List Entry → 
       handleEntries o f indir outdir rest
     else handleEntries o f indir outdir rest
 /-- `handle_entries` for a directory: the rerun line, then its entries -/
-def handleDir (o : Out) (f : Bytes) (indir outdir : Bytes) (entries : List Entry) : Bytes × Out :=
+def handleDir (o : Log) (f : Bytes) (indir outdir : Bytes) (entries : List Entry) : Bytes × Log :=
   let o := (o.read indir).print (str "cargo:rerun-if-changed=" ++ indir)
   handleEntries o f indir outdir entries
 end
@@ -126,16 +143,16 @@ inductive Op where
   | addFileData (path data : Bytes)
 
 structure Build where
-  out : Out
+  out : Log
   f : Bytes                       -- the text of templates.rs so far
   statics : Option Statics        -- `Some` once `statics()` was called
 
 def utilsDecl : Bytes := str "#[doc(hidden)]\nmod _utils;\n#[doc(inline)]\npub use self::_utils::*;\n\n"
 
 /-- `Ructe::new(outdir)` (feature warp03 off) -/
-def Build.new (fs : FS) (outdir utilsRs : Bytes) : Build :=
+def Build.new (outdir utilsRs : Bytes) : Build :=
   let tdir := joinPath outdir (str "templates")
-  let o := writeIfChanged { fs := fs } (joinPath tdir (str "_utils.rs")) utilsRs
+  let o := writeIfChanged {} (joinPath tdir (str "_utils.rs")) utilsRs
   { out := o, f := str "pub mod templates {\n" ++ utilsDecl, statics := none }
 
 def Build.withStatics (feat : MimeFeature) (b : Build) : Build :=
@@ -144,7 +161,7 @@ def Build.withStatics (feat : MimeFeature) (b : Build) : Build :=
   | none => { b with f := b.f ++ str "pub mod statics;", statics := some (Statics.new feat) }
 
 /-- `add_files_as`, recursive over sub-directories -/
-def addFilesAs (dirLine : Bool) : Out → Statics → Bytes → Bytes → List Entry → Out × Statics
+def addFilesAs (dirLine : Bool) : Log → Statics → Bytes → Bytes → List Entry → Log × Statics
   | o, s, _, _, [] => (o, s)
   | o, s, indir, to, .file name _ :: rest =>
     let to' := if to = [] then name else to ++ [47] ++ name
@@ -159,7 +176,7 @@ def addFilesAs (dirLine : Bool) : Out → Statics → Bytes → Bytes → List E
     let (o, s) := addFilesAs dirLine o s path to' sub
     addFilesAs dirLine o s indir to rest
 
-def addFilesFlat : Out → Statics → Bytes → List Entry → Out × Statics
+def addFilesFlat : Log → Statics → Bytes → List Entry → Log × Statics
   | o, s, _, [] => (o, s)
   | o, s, indir, .file name content :: rest =>
     let path := joinPath indir name
@@ -211,19 +228,23 @@ def Build.step (feat : MimeFeature) (outdir : Bytes) (b : Build) : Op → Build
     | none => b
 
 /-- the two `Drop`s: `statics.rs` first, then the closing brace and `templates.rs` -/
-def Build.finish (outdir : Bytes) (b : Build) : Out :=
+def Build.finish (outdir : Bytes) (b : Build) : Log :=
   let o := match b.statics with
     | some s => writeIfChanged b.out (joinPath (joinPath outdir (str "templates")) (str "statics.rs")) s.finish
     | none => b.out
   writeIfChanged o (joinPath outdir (str "templates.rs")) (b.f ++ str "}\n")
 
-/-- one complete run of a build script -/
+/-- what one complete run of a build script asks for -/
+def buildLog (feat : MimeFeature) (outdir utilsRs : Bytes) (ops : List Op) : Log :=
+  (ops.foldl (Build.step uniEsc uniAlnum feat outdir) (Build.new outdir utilsRs)).finish outdir
+
+/-- one complete run of a build script on the prior OUT_DIR state `fs` -/
 def build (feat : MimeFeature) (fs : FS) (outdir utilsRs : Bytes) (ops : List Op) : Out :=
-  (ops.foldl (Build.step uniEsc uniAlnum feat outdir) (Build.new fs outdir utilsRs)).finish outdir
+  runLog fs (buildLog uniEsc uniAlnum feat outdir utilsRs ops)
 
 /-- identifier → URL name after the script (`get_names()`) -/
 def namesAfter (feat : MimeFeature) (outdir utilsRs : Bytes) (ops : List Op) : List (Bytes × Bytes) :=
-  match (ops.foldl (Build.step uniEsc uniAlnum feat outdir) (Build.new [] outdir utilsRs)).statics with
+  match (ops.foldl (Build.step uniEsc uniAlnum feat outdir) (Build.new outdir utilsRs)).statics with
   | some s => s.names
   | none => []
 
